@@ -39,6 +39,9 @@ fn("FuncABS", entry="FuncABS_f", defs=["-DVERIF_OPT_FLOAT"]); fn("FuncSGN", entr
 fn("FuncTOUPPER"); fn("FuncTOLOWER"); fn("FuncEXPRTYPE")
 fn("FuncSTRLEN", link=["tempresult.c", "bpemu.c", "nonzstring.c"])
 fn("FuncCHARFROMSTR", link=["tempresult.c", "bpemu.c", "nonzstring.c"], unwind=12)
+for e in ("FuncSUBSTR", "FuncSUBSTR_safe"):
+    GROUPS.append(G("fn_" + e, FUNCS, "h_" + e, enforce=[], link=["tempresult.c", "bpemu.c", "nonzstring.c"], stubs=STUBS, unwind=14, timeout=600, dfcc=False, drop_unused=True,
+                    functions=["FuncSUBSTR"], object_bits=12, bounded="source strings of at most 12 characters; start and count over the full 64-bit range"))
 fn("FuncBITPOS", replace=["SingleBit"])
 GROUPS.append(G("pars_SingleBit", "harness/C08/asmpars_kernels.c", "h_SingleBit", enforce=["SingleBit"],
                 link=["bpemu.c"], stubs=STUBS, unwind=66, timeout=300))
